@@ -63,10 +63,17 @@ class Session:
             self.chart = None
             return
         self.obs0 = observation(ref)
+        # what iteration and rendering expose (order included): taken from the untouched third parse
+        self.order0 = self._order(ref)
+        self.str0 = [str(ref), repr(ref)]
         self.insts = list(L.Instrument)
         self.diffs = list(L.Difficulty)
 
     # -- helpers ------------------------------------------------------------------------------
+    @staticmethod
+    def _order(chart):
+        return [[i.name, [d.name for d in inner]] for i, inner in chart.instrument_tracks.items()]
+
     def _tracks(self):
         return [tr for inner in self.chart.instrument_tracks.values() for tr in inner.values()]
 
@@ -275,6 +282,13 @@ class Session:
                 for inst in [i for i, inner in list(c.instrument_tracks.items()) if not inner]:
                     del c.instrument_tracks[inst]
                 return
+        if self._order(c) != self.order0:
+            self.ctx.fail("observation-changed", f"after {self.ops[-1] if self.ops else 'parsing'}: "
+                                                 f"instrument_tracks now iterates as {self._order(c)}, it was "
+                                                 f"{self.order0}", self.rc())
+        if len(self.ops) % 3 == 0 and [str(c), repr(c)] != self.str0:
+            self.ctx.fail("observation-changed", f"after {self.ops[-1] if self.ops else 'parsing'}: str()/repr() "
+                                                 f"of the chart changed", self.rc())
         if not eq:
             self.ctx.fail("twin-equality", f"after {self.ops[-1] if self.ops else 'parsing'}: chart != "
                                            f"identically parsed twin (observations equal)", self.rc())
@@ -435,6 +449,9 @@ def fixed_cases(ctx: Ctx):
     spec3 = {"res": 192, "sync": [[0, "TS", 4], [0, "B", 120000]], "events": [[50, "b"], [10, "a"]],
              "tracks": {"ExpertSingle": [[0, "N", 0, 0], [384, "N", 1, 40], [96, "N", 2, 0], [192, "N", 3, 500],
                                          [300, "S", 2, 10], [100, "S", 2, 10]]}}
+    spec4 = dict(spec1, tracks={"ExpertSingle": spec1["tracks"]["ExpertSingle"], "EasySingle": [[5, "N", 1, 0]],
+                               "HardSingle": [], "ExpertDrums": [[9, "N", 2, 0]], "MediumSingle": [[7, "N", 0, 0]]})
+    yield {"spec": spec4, "ops": ops}
     yield {"spec": dict(spec1, want=[]), "ops": ops}
     yield {"spec": dict(spec1, want=["HardSingle", "ExpertDrums"]), "ops": ops}
     yield {"spec": spec3, "ops": ops + [["nps", 0, 3, "none", 0, 0], ["nps", 0, 3, "tick_tick", 0, 400],
